@@ -1,5 +1,6 @@
-"""Route P runner used by props/C19.py: writes a module of CrossHair conditions, runs every condition in its own
-`crosshair check` subprocess (parallel, each with a CrossHair time-out and a hard wall time-out), classifies the verdicts.
+"""Route P runner used by props/C19.py: writes modules of CrossHair conditions, runs each module (a *batch* of
+conditions) in its own `crosshair check` subprocess - batches run in parallel, every condition has a CrossHair time-out,
+every subprocess a hard wall time-out, and the whole route a deadline - and classifies the verdicts.
 
 A condition is described by `Cond(name, params, pre, body, kind)`:
     def <name>(<params>) -> bool:
@@ -8,9 +9,9 @@ A condition is described by `Cond(name, params, pre, body, kind)`:
         post: __return__          (kind 'claim')   |   post: not __return__   (kind 'twin': must be *refuted*)
         '''
         return <body>
-Verdicts: 'confirmed' (CrossHair: "Confirmed over all paths."), 'refuted' (counterexample call, parsed to concrete
-arguments), 'exception' (the body raised), 'unknown' (Not confirmed / Unable to meet precondition / time-out / anything
-unrecognised).  Nothing here decides a violation: the caller replays refuted claims under /venv/bin/python.
+Verdicts: 'confirmed' (CrossHair: "Confirmed over all paths."), 'refuted' (counterexample call, parsed back to concrete
+arguments), 'exception' (the body raised), 'unknown' (Not confirmed / Unable to meet precondition / time-out / killed /
+anything unrecognised).  Nothing here decides a violation: the caller replays refuted claims under /venv/bin/python.
 """
 
 from __future__ import annotations
@@ -19,6 +20,7 @@ import ast
 import os
 import re
 import subprocess
+import threading
 import time
 from concurrent.futures import ThreadPoolExecutor
 from dataclasses import dataclass, field
@@ -36,6 +38,8 @@ class Cond:
     body: str  # python expression -> bool
     kind: str = "claim"  # 'claim' | 'twin'
     family: str = ""
+    cost: float = 5.0  # rough CPU seconds (used for batching only)
+    timeout: float = 60.0  # CrossHair per-condition time-out
     meta: dict = field(default_factory=dict)
 
 
@@ -45,8 +49,8 @@ class Verdict:
     status: str  # confirmed | refuted | exception | unknown
     message: str = ""
     args: tuple | None = None  # concrete arguments of the counterexample call (positional order)
-    seconds: float = 0.0
-    raw: str = ""
+    seconds: float = 0.0  # wall time of the batch the condition ran in
+    batch: int = -1
 
 
 def ensure_crosshair() -> str | None:
@@ -59,18 +63,19 @@ def ensure_crosshair() -> str | None:
 
 
 def write_module(path: str, header: str, conds: list) -> dict:
-    """-> {cond name: line number inside the def body}"""
+    """-> {cond name: (first line, last line)} (1-based, inclusive, def line .. return line)"""
     lines = header.rstrip("\n").split("\n") + ["", ""]
     where = {}
     for c in conds:
+        first = len(lines) + 1
         lines.append(f"def {c.name}({c.params}) -> bool:")
         lines.append('    """')
-        where[c.name] = len(lines) + 1  # 1-based line of the first docstring content line
         for p in c.pre:
             lines.append(f"    pre: {p}")
         lines.append("    post: __return__" if c.kind == "claim" else "    post: not __return__")
         lines.append('    """')
         lines.append(f"    return {c.body}")
+        where[c.name] = (first, len(lines))
         lines += ["", ""]
     with open(path, "w") as f:
         f.write("\n".join(lines))
@@ -86,13 +91,13 @@ def child_env() -> dict:
     return env
 
 
-_CALL = re.compile(r"when calling (.*?)(?: \(which (?:returns|raises) .*\))?$", re.S)
+_CALL = re.compile(r"when calling (\w+)(\(.*?\))(?: \(which (?:returns|raises) .*\))?$", re.S)
 
 
-def parse_call(text: str, cond: Cond):
-    """'f(b"..", 3)' -> tuple of python values in parameter order (None if it cannot be read back as literals)"""
+def parse_call(name: str, argtext: str, cond: Cond):
+    """'f', '(b"..", 3)' -> tuple of python values in parameter order (None if it cannot be read back as literals)"""
     try:
-        node = ast.parse(text.strip(), mode="eval").body
+        node = ast.parse(name + argtext.strip(), mode="eval").body
         if not isinstance(node, ast.Call):
             return None
         names = [p.split(":")[0].strip() for p in cond.params.split(",")]
@@ -105,63 +110,132 @@ def parse_call(text: str, cond: Cond):
         return None
 
 
-def classify(cond: Cond, out: str) -> Verdict:
-    msgs = []
+def classify_batch(path: str, where: dict, conds: list, out: str) -> dict:
+    """CrossHair stdout of one batch -> {cond name: Verdict}; conditions without any message are 'unknown'"""
+    byname = {c.name: c for c in conds}
+    msgs: dict[str, list] = {c.name: [] for c in conds}
+    base = os.path.basename(path)
+    cur = None
     for line in out.splitlines():
-        m = re.match(r"^.*?\.py:\d+: (info|error|warning): (.*)$", line)
-        if m:
-            msgs.append((m.group(1), m.group(2)))
-        elif msgs and line.strip():
-            # continuation of a multi-line message
-            msgs[-1] = (msgs[-1][0], msgs[-1][1] + "\n" + line)
-    errs = [t for k, t in msgs if k == "error"]
-    if errs:
-        t = errs[0]
-        m = _CALL.search(t)
-        args = parse_call(m.group(1), cond) if m else None
-        if t.startswith("false when calling"):
-            return Verdict(cond, "refuted", t, args)
-        return Verdict(cond, "exception", t, args)
-    infos = [t for k, t in msgs if k == "info"]
-    if any(t.startswith("Confirmed over all paths") for t in infos) and len(infos) == 1:
-        return Verdict(cond, "confirmed", infos[0])
-    return Verdict(cond, "unknown", "; ".join(infos) or out.strip()[-200:] or "no verdict printed")
+        m = re.match(r"^(.*?\.py):(\d+): (info|error|warning): (.*)$", line)
+        if not m:
+            if cur is not None and line.strip():
+                cur[1] += "\n" + line
+            continue
+        fn, ln, kind, text = m.group(1), int(m.group(2)), m.group(3), m.group(4)
+        cur = [kind, text]
+        owner = None
+        mc = _CALL.search(text)
+        if mc and mc.group(1) in byname:
+            owner = mc.group(1)
+        elif os.path.basename(fn) == base:
+            for n, (a, b) in where.items():
+                if a <= ln <= b:
+                    owner = n
+        if owner is None:
+            cur = None
+            continue
+        msgs[owner].append(cur)
+    res = {}
+    for c in conds:
+        ms = msgs[c.name]
+        errs = [t for k, t in ms if k == "error"]
+        infos = [t for k, t in ms if k == "info"]
+        if errs:
+            t = errs[0]
+            mc = _CALL.search(t)
+            args = parse_call(mc.group(1), mc.group(2), c) if mc else None
+            res[c.name] = Verdict(c, "refuted" if t.startswith("false when calling") else "exception", t[:600], args)
+        elif len(infos) == 1 and infos[0].startswith("Confirmed over all paths"):
+            res[c.name] = Verdict(c, "confirmed", infos[0])
+        else:
+            res[c.name] = Verdict(c, "unknown", "; ".join(infos)[:300] or "no verdict printed (time-out or killed)")
+    return res
 
 
-def run_one(path: str, line: int, cond: Cond, timeout: float, env: dict, verbose=False) -> Verdict:
-    cmd = [CROSSHAIR, "check", "--report_all", "--per_condition_timeout", str(timeout),
-           "--per_path_timeout", str(max(10.0, timeout / 4)), f"{path}:{line}"]
-    if verbose:
-        cmd.insert(2, "-v")
-    t0 = time.time()
-    try:
-        p = subprocess.run(cmd, capture_output=True, text=True, timeout=timeout * 1.5 + 60, env=env,
-                           cwd=os.path.dirname(path))
-        out = p.stdout + ("\n" + p.stderr if verbose else "")
-        v = classify(cond, p.stdout)
-        if v.status == "unknown" and p.returncode not in (0, 1):
-            v.message += f" [exit {p.returncode}: {p.stderr.strip()[-200:]}]"
-    except subprocess.TimeoutExpired:
-        out = ""
-        v = Verdict(cond, "unknown", "wall time-out (subprocess killed)")
-    v.seconds = time.time() - t0
-    v.raw = out[-2000:]
-    return v
+class Runner:
+    def __init__(self, tmpdir: str, header: str, jobs: int, deadline: float, verbose=False, log=None):
+        self.tmp, self.header, self.jobs, self.deadline = tmpdir, header, max(1, jobs), deadline
+        self.verbose, self.log = verbose, log
+        self.env = child_env()
+        self.procs: set = set()
+        self.lock = threading.Lock()
+
+    def run_batch(self, idx: int, conds: list) -> dict:
+        path = os.path.join(self.tmp, f"c19_batch{idx:02d}.py")
+        where = write_module(path, self.header, conds)
+        left = self.deadline - time.time()
+        if left < 15:
+            return {c.name: Verdict(c, "unknown", "not started: route P deadline of this tier reached", batch=idx)
+                    for c in conds}
+        tmo = max(c.timeout for c in conds)
+        wall = min(left, sum(c.timeout for c in conds) * 1.3 + 60)
+        cmd = [CROSSHAIR, "check", "--report_all", "--per_condition_timeout", str(tmo),
+               "--per_path_timeout", str(max(10.0, tmo / 3)), path]
+        if self.verbose:
+            cmd.insert(2, "-v")
+        t0 = time.time()
+        p = subprocess.Popen(cmd, stdout=subprocess.PIPE, stderr=subprocess.PIPE, text=True, env=self.env, cwd=self.tmp)
+        with self.lock:
+            self.procs.add(p)
+        killed = False
+        try:
+            out, err = p.communicate(timeout=wall)
+        except subprocess.TimeoutExpired:
+            p.kill()
+            out, err = p.communicate()
+            killed = True
+        finally:
+            with self.lock:
+                self.procs.discard(p)
+        res = classify_batch(path, where, conds, out or "")
+        dt = time.time() - t0
+        for v in res.values():
+            v.seconds, v.batch = dt, idx
+            if v.status == "unknown":
+                if killed:
+                    v.message += " [subprocess killed at the wall time-out]"
+                elif p.returncode not in (0, 1):
+                    v.message += f" [crosshair exit {p.returncode}: {(err or '').strip()[-160:]}]"
+        if self.log:
+            self.log(idx, conds, res, dt, (out or "") + ("\n" + err if self.verbose and err else ""))
+        return res
+
+    def run(self, batches: list) -> dict:
+        out = {}
+        with ThreadPoolExecutor(max_workers=self.jobs) as ex:
+            futs = [ex.submit(self.run_batch, i, b) for i, b in enumerate(batches)]
+            for f in futs:
+                out.update(f.result())
+        return out
+
+    def kill_all(self):
+        with self.lock:
+            for p in list(self.procs):
+                try:
+                    p.kill()
+                except Exception:  # noqa: BLE001
+                    pass
 
 
-def run_all(path: str, where: dict, conds: list, timeout: float, jobs: int, verbose=False, progress=None) -> list:
-    env = child_env()
-    out = []
-    # longest first: conditions carry an optional cost hint
-    order = sorted(conds, key=lambda c: -c.meta.get("cost", 1))
-    with ThreadPoolExecutor(max_workers=max(1, jobs)) as ex:
-        futs = [ex.submit(run_one, path, where[c.name], c, c.meta.get("timeout", timeout), env, verbose) for c in order]
-        for f in futs:
-            v = f.result()
-            out.append(v)
-            if progress:
-                progress(v)
-    return out
+def make_batches(conds: list, nbatches: int, startup_cost: float = 6.0) -> list:
+    """longest-processing-time-first packing of the conditions' cost hints; expensive conditions stay alone"""
+    conds = sorted(conds, key=lambda c: -c.cost)
+    total = sum(c.cost for c in conds)
+    target = max(total / max(1, nbatches), max((c.cost for c in conds), default=0))
+    bins: list = []
+    for c in conds:
+        best = None
+        for b in bins:
+            load = sum(x.cost for x in b)
+            if load + c.cost <= target * 1.05 and (best is None or load < sum(x.cost for x in best)):
+                best = b
+        if best is None:
+            bins.append([c])
+        else:
+            best.append(c)
+    bins.sort(key=lambda b: -sum(x.cost for x in b))
+    return bins
 
 
 def probe_import(tmpdir: str) -> str:
